@@ -70,23 +70,33 @@ def checkHandler : Handler CS where
     | f :: more => [s!"prop check=FAIL sig={f} more={more.length}"]
 
 structure RS where
-  rc : RC := {}
+  sys : Sys := {}
   -- oracle: users = starts − successful shutdowns, from the implementation's observations
   users : Int := 0
   lastOp : String := ""
   fails : List String := []
+
+/-- the checker of the ref-count harness: 100 MiB / 20 MiB, GC never due (both intervals 1 h) -/
+def rcChecker : Checker := ⟨104857600, 20971520⟩
+def rcGC : Int := 3600000000000
 
 def rcHandler : Handler RS where
   init := {}
   onOp := fun s toks =>
     match toks with
     | ["start"] =>
-      let (rc, err) := s.rc.step .start
-      ({ s with rc := rc, lastOp := "start" }, [s!"obs rc err={b01 err}"])
+      let (_, err) := s.sys.rc.step .start
+      ({ s with sys := s.sys.step rcChecker rcGC rcGC .start, lastOp := "start" }, [s!"obs rc err={b01 err}"])
     | ["shutdown"] =>
-      let (rc, err) := s.rc.step .shutdown
-      ({ s with rc := rc, lastOp := "shutdown" }, [s!"obs rc err={b01 err}"])
-    | ["tick"] => ({ s with lastOp := "tick" }, [s!"obs tick checked={b01 s.rc.checking}"])
+      let (_, err) := s.sys.rc.step .shutdown
+      ({ s with sys := s.sys.step rcChecker rcGC rcGC .shutdown, lastOp := "shutdown" }, [s!"obs rc err={b01 err}"])
+    | "tick" :: t =>
+      match kvNat t "r", kvInt t "now" with
+      | some r, some now =>
+        let checking := s.sys.rc.checking
+        let sys := s.sys.step rcChecker rcGC rcGC (.tick { now := now, alloc := r, allocAfterGC := r })
+        ({ s with sys := sys, lastOp := "tick" }, [s!"obs tick checked={b01 checking} refuse={b01 sys.st.mustRefuse}"])
+      | _, _ => (s, ["obs bad-op"])
     | _ => (s, ["obs bad-op"])
   onObs := fun s toks =>
     match toks with
@@ -94,15 +104,11 @@ def rcHandler : Handler RS where
       match kvBool [e] "err" with
       | some err =>
         let users := if s.lastOp = "start" then s.users + 1 else if err then s.users else s.users - 1
-        let f := if s.lastOp = "shutdown" && (err != decide (s.users ≤ 0)) then ["C18/refcount/shutdown-error-mismatch"] else []
-        { s with users := users, fails := s.fails ++ f }
+        { s with users := users, fails := s.fails ++ checkRC s.users s.lastOp err false }
       | none => { s with fails := s.fails ++ ["C18/refcount/unparsable"] }
-    | [_, "tick", c] =>
+    | [_, "tick", c, _] =>
       match kvBool [c] "checked" with
-      | some checked =>
-        let f := if checked && s.users ≤ 0 then ["C18/refcount/checking-after-last-shutdown"]
-                 else if !checked && s.users > 0 then ["C18/refcount/not-checking-while-users-remain"] else []
-        { s with fails := s.fails ++ f }
+      | some checked => { s with fails := s.fails ++ checkRC s.users "tick" false checked }
       | none => { s with fails := s.fails ++ ["C18/refcount/unparsable"] }
     | _ => s
   onEnd := fun s =>
@@ -110,26 +116,45 @@ def rcHandler : Handler RS where
     | [] => ["prop refcount=ok"]
     | f :: more => [s!"prop refcount=FAIL sig={f} more={more.length}"]
 
-def procHandler : Handler Unit where
-  init := ()
+def sigOfNat : Nat → Option Sig
+  | 0 => some .logs | 1 => some .traces | 2 => some .metrics | 3 => some .profiles | _ => none
+
+structure PS where
+  fails : List String := []
+
+def procHandler : Handler PS where
+  init := {}
   onOp := fun s toks =>
     match toks with
     | "consume" :: t =>
-      match kvBool t "refusing", kv t "next" with
-      | some refusing, some nx =>
+      match kvBool t "refusing", kv t "next", (kvNat t "sig").bind sigOfNat, kvNat t "n" with
+      | some refusing, some nx, some sig, some n =>
         let next : Unit → Res := fun _ => if nx = "ok" then .ok else if nx = "perm" then .downstream 1 true else .downstream 1 false
-        let (fwd, res) := consume refusing () next
-        let rs := match res with
+        let out := consumeFull sig (fun _ => n) refusing () next
+        let rs := match out.res with
           | .ok => "ok"
           | .refused => "refused"
           | .downstream _ p => s!"down perm={b01 p}"
-        (s, [s!"obs res fwd={b01 fwd.isSome} {rs} permanent={b01 res.isPermanent}"])
-      | _, _ => (s, ["obs bad-op"])
+        let k := out.counts
+        (s, [s!"obs res fwd={b01 out.forwarded.isSome} {rs} permanent={b01 out.res.isPermanent} acc={k.accepted} ref={k.refused} in={k.incoming} out={k.outgoing}"])
+      | _, _, _, _ => (s, ["obs bad-op"])
     | "mustrefuse" :: t =>
       match kvBool t "refusing" with
-      | some r => (s, [s!"obs ext {b01 r}"])
+      | some r => (s, [s!"obs ext {b01 (extMustRefuse { mustRefuse := r })}"])
       | none => (s, ["obs bad-op"])
     | _ => (s, ["obs bad-op"])
+  onObs := fun s toks =>
+    match toks with
+    | "tr" :: "oc" :: t =>
+      match kvBool t "refusing", kvBool t "fwd", kvBool t "same", kvBool t "nil", kvBool t "refused", kvBool t "perm", kvBool t "eqnext" with
+      | some a, some b, some c, some d, some e, some f, some g =>
+        { s with fails := s.fails ++ checkConsume { refusing := a, fwd := b, same := c, isNil := d, isRefused := e, isPerm := f, eqNext := g } }
+      | _, _, _, _, _, _, _ => { s with fails := s.fails ++ ["C18/processor/unparsable"] }
+    | _ => s
+  onEnd := fun s =>
+    match s.fails with
+    | [] => ["prop consume=ok"]
+    | f :: more => [s!"prop consume=FAIL sig={f} more={more.length}"]
 
 end OtelVerif.Drivers.C18
 
